@@ -8,7 +8,8 @@ namespace GapicModel.Driver
 open Model.Metadata in
 def c15FieldOfJson (j : Json) : Except String FieldS := do
   match (← j.getArr?).toList with
-  | [Json.str n, Json.bool r] => pure ⟨n.toList, r⟩
+  | [Json.str n, Json.bool r] => pure ⟨n.toList, r, 0⟩
+  | [Json.str n, Json.bool r, num] => pure ⟨n.toList, r, ← num.getNat?⟩
   | _ => throw "bad field"
 
 def c15Bool (j : Json) (k : String) : Except String Bool := do
